@@ -74,8 +74,13 @@ def _bodies(draw, ctx):
     if chosen:
         kind = M.FIELD_BY_PASCAL[chosen[target][0]][2]
         new_value = draw(_value_for(kind))
+    from cpverif import spec as S_
+    # the rest of the file must not matter to [Song]: a few instrument sections ride along
+    sections = draw(st.lists(st.sampled_from(S_.HEADER_LIST + ["ExpertDoubleRhythm", "EasyDoubleBass", "ExpertDrums",
+                                                               "HardGHLGuitar", "ExpertKeyboard"]),
+                             unique=True, max_size=4))
     return {"fields": [list(f) for f in fields], "target": chosen[target][0] if chosen else None,
-            "new_value": new_value, "via_chart": draw(st.integers(0, 3)) == 0}
+            "new_value": new_value, "via_chart": draw(st.integers(0, 2)) == 0, "sections": sections}
 
 
 def strat_bodies(ctx: Ctx):
@@ -100,13 +105,14 @@ def _expected(fields) -> dict:
     return out
 
 
-def _decode(ctx, lines, via_chart, rc):
+def _decode(ctx, lines, via_chart, rc, sections=()):
     """Returns the observed metadata dict, 'MISSING' for MissingRequiredField, or None after a
     reported violation."""
     try:
         if via_chart:
             text = "[Song]\n{\n" + "".join(ln + "\n" for ln in lines) + \
-                   "}\n[SyncTrack]\n{\n  0 = TS 4\n  0 = B 120000\n}\n[Events]\n{\n}\n"
+                   "}\n[SyncTrack]\n{\n  0 = TS 4\n  0 = B 120000\n}\n[Events]\n{\n  0 = E \"section a\"\n}\n" + \
+                   "".join(f"[{h}]\n{{\n  0 = N 0 0\n  96 = N 7 0\n  96 = E solo\n}}\n" for h in sections)
             md = L.parse(text).metadata
         else:
             md = L.Metadata.from_chart_lines(lines)
@@ -124,8 +130,8 @@ def check_body(ctx: Ctx, case) -> None:
     has_res = any(f[0] == "Resolution" for f in fields)
     res_val = next((int(f[1]) for f in fields if f[0] == "Resolution"), None)
     via_chart = bool(case.get("via_chart")) and has_res and 0 < res_val <= 10 ** 6
-    rc = {"lines": lines, "via_chart": via_chart}
-    got = _decode(ctx, lines, via_chart, rc)
+    rc = {"lines": lines, "via_chart": via_chart, "sections": case.get("sections") or []}
+    got = _decode(ctx, lines, via_chart, rc, case.get("sections") or ())
     if got is None:
         return
     if not has_res:
